@@ -1,0 +1,23 @@
+//! Verification hooks, compiled only with `--cfg sourcemap_verif`.
+//!
+//! `SourceView::get_line` calls `yield_point` at places where it holds no lock. A test
+//! harness can install a callback there to take control of the thread schedule. Without an
+//! installed callback a yield point is a relaxed load and a branch.
+use std::sync::atomic::{AtomicUsize, Ordering};
+
+static HOOK: AtomicUsize = AtomicUsize::new(0);
+
+/// Installs (or removes) the callback invoked at every yield point with the point's number.
+pub fn set_yield_hook(hook: Option<fn(u32)>) {
+    HOOK.store(hook.map_or(0, |f| f as usize), Ordering::SeqCst);
+}
+
+#[inline]
+pub(crate) fn yield_point(n: u32) {
+    let h = HOOK.load(Ordering::Relaxed);
+    if h != 0 {
+        // SAFETY: the only non-zero values ever stored are `fn(u32)` pointers
+        let f: fn(u32) = unsafe { std::mem::transmute::<usize, fn(u32)>(h) };
+        f(n);
+    }
+}
